@@ -646,6 +646,109 @@ func (r *secretRun) relock(who string, m *airgapped.Machine, right string, wrong
 	}
 }
 
+// prefixWrongs: wrong passwords that share a beginning with the right one (of 31, 32, 33 bytes, all but the last 1 / 7
+// bytes), differ from it in the last byte only, are the right one cut short or the right one with something appended
+func prefixWrongs(right string) []string {
+	seen := map[string]bool{right: true}
+	var out []string
+	add := func(w string) {
+		if !seen[w] {
+			seen[w] = true
+			out = append(out, w)
+		}
+	}
+	for _, k := range []int{16, 31, 32, 33, 39, len(right) - 7, len(right) - 1} {
+		if k > 0 && k < len(right) {
+			add(right[:k])                                     // the right one cut short
+			add(right[:k] + strings.Repeat("#", len(right)-k)) // same length, same first k bytes
+			add(right[:k] + "!")                               // the first k bytes and one other byte
+		}
+	}
+	last := []byte(right)
+	last[len(last)-1] ^= 1
+	add(string(last))
+	add(right + "x")
+	add(right + right)
+	return out
+}
+
+// longPasswords (C04 "stored only encrypted under the operator's password: with a wrong password they cannot be loaded" -
+// the password, all of it): machines set up under pass phrases of 40 and 64 bytes, one of them after a key generation (it
+// holds a BLS share); every wrong pass phrase that has a beginning in common with the right one must open nothing - neither
+// on the machine that was unlocked and has dropped its sensitive data, nor on a machine started on the database
+func (r *secretRun) longPasswords(outDir string) {
+	dir, _ := os.MkdirTemp(outDir, "longpw")
+	defer os.RemoveAll(dir)
+	pw40 := "correct horse battery staple 40 bytes ok"
+	pw64 := "a pass phrase of exactly sixty-four bytes, typed by the operator"
+	// (a) a 2-of-2 key generation under the 40-byte pass phrase
+	c, err := newCluster(filepath.Join(dir, "c40"), 2, pw40)
+	if err != nil {
+		r.mon("harness: " + err.Error())
+		return
+	}
+	closed := false
+	defer func() {
+		if !closed {
+			c.close()
+		}
+	}()
+	if _, err := c.startDKG(2); err != nil {
+		r.mon("harness: " + err.Error())
+		return
+	}
+	c.pump(60)
+	tag := fmt.Sprintf("(n=2,t=2, pass phrase of %d bytes)", len(pw40))
+	nd := c.nodes[0]
+	if ks, err := nd.air.GetBLSKeyrings(); err != nil || len(ks) == 0 {
+		r.mon(fmt.Sprintf("harness: %s machine 0 holds no keyring after the key generation (%v)", tag, err))
+	}
+	r.relock(fmt.Sprintf("%s the running machine 0 (after its key generation)", tag), nd.air, pw40, prefixWrongs(pw40), nil)
+	db := filepath.Join(nd.dir, "airgapped")
+	c.close()
+	closed = true
+	r.coldWrongs(tag+" machine 0", db, pw40, prefixWrongs(pw40))
+	// (b) a machine set up under the 64-byte pass phrase (long-term key only)
+	m, err := newMachine(filepath.Join(dir, "m64"), pw64, testMnemonics[0])
+	if err != nil {
+		r.mon("harness: " + err.Error())
+		return
+	}
+	tag = fmt.Sprintf("(a machine set up under a pass phrase of %d bytes)", len(pw64))
+	r.relock(tag+" the running machine", m, pw64, prefixWrongs(pw64), nil)
+	m.VerifCloseDB()
+	r.coldWrongs(tag, filepath.Join(dir, "m64", "db"), pw64, prefixWrongs(pw64))
+}
+
+// coldWrongs: a process started on the database directory; the right password must open it, every wrong one nothing
+func (r *secretRun) coldWrongs(who, db, right string, wrongs []string) {
+	for _, pw := range append([]string{right}, wrongs...) {
+		m, err := airgapped.NewMachine(db)
+		if err != nil {
+			r.mon("harness: reopen: " + err.Error())
+			return
+		}
+		m.SetEncryptionKey([]byte(pw))
+		err = m.LoadKeysFromDB()
+		ks, kerr := m.GetBLSKeyrings()
+		m.VerifCloseDB()
+		if pw == right {
+			if err != nil || kerr != nil {
+				r.mon(fmt.Sprintf("harness: %s does not open with the right password: %v %v", who, err, kerr))
+				return
+			}
+			continue
+		}
+		r.st.WrongPasswords++
+		if err == nil {
+			r.mon(fmt.Sprintf("C04 wrong_password: %s, started on its database: LoadKeysFromDB succeeds with the wrong password %q (the right one is %q, %d bytes)", who, pw, right, len(right)))
+		}
+		if kerr == nil && len(ks) > 0 {
+			r.mon(fmt.Sprintf("C04 wrong_password: %s, started on its database: GetBLSKeyrings returns %d keyrings with the wrong password %q (the right one is %q, %d bytes)", who, len(ks), pw, right, len(right)))
+		}
+	}
+}
+
 // lookAlikes: a key generation among participants whose names differ only in the case of a letter: what is dealt to "Bob"
 // opens with Bob's key, not with bob's
 func (r *secretRun) lookAlikes(outDir string) {
@@ -711,6 +814,7 @@ func runSecretDiff(outDir string, seed int64, tier string) {
 		r.scenario(outDir, cf[0], cf[1])
 	}
 	r.lookAlikes(outDir)
+	r.longPasswords(outDir)
 	r.ops.Flush()
 	r.obs.Flush()
 	fo.Close()
